@@ -77,10 +77,10 @@ func checkC16(r *Run) {
 		t := P.callTerm(cs[0])
 		s0, e0 := argTerm(t, 1).String(), argTerm(t, 2).String()
 		r.Check(s0 == "store/prefix.cloneAppend(param:s.prefix, param:start)", "C16-R1", "prefix."+m+"/start", P.InstrPos(cs[0]), s0, "start bound is "+s0)
-		okEnd := e0 == "phi(store/prefix.cloneAppend(param:s.prefix, param:end), store/prefix.cpIncr(param:s.prefix))"
+		okEnd := e0 == "phi(store/prefix.cloneAppend(param:s.prefix, param:end), store/types.PrefixEndBytes(param:s.prefix))"
 		r.Check(okEnd, "C16-R1", "prefix."+m+"/end", P.InstrPos(cs[0]), e0, "end bound is "+e0+" ; required cloneAppend(prefix,end) or cpIncr(prefix)")
 		// cpIncr exactly when end == nil
-		for _, c := range CallsIn(f, "store/prefix.cpIncr") {
+		for _, c := range append(CallsIn(f, "store/prefix.cpIncr"), CallsIn(f, "store/types.PrefixEndBytes")...) {
 			ok, _ := HasAtom(P.Guards(c, 0), `^isnil\(param:end\)$`)
 			r.Check(ok, "C16-R1", "prefix."+m+"/cpIncr-iff-end-nil", P.InstrPos(c), "cpIncr(prefix) when end == nil", "cpIncr used under "+strings.Join(atomStrings(P.Guards(c, 0)), " ; "))
 		}
@@ -451,8 +451,8 @@ func checkC16(r *Run) {
 	// ------------------------------------------------------------------ R5
 	r.Rule("C16-R5", "wiring: Context.KVStore wraps MultiStore().GetKVStore(key) with the context's gas meter and the shipped KV cost table; Subspace stores are prefix stores over ctx.KVStore(s.key) / ctx.TransientStore(s.tkey) with prefix name+'/'", 4)
 	for _, w := range []struct{ fn, want string }{
-		{"(types.Context).KVStore", "store/gaskv.NewStore(store/types.MultiStore.GetKVStore((types.Context).MultiStore(param:c), param:key), (types.Context).GasMeter(param:c), store/types.KVGasConfig())"},
-		{"(types.Context).TransientStore", "store/gaskv.NewStore(store/types.MultiStore.GetKVStore((types.Context).MultiStore(param:c), param:key), (types.Context).GasMeter(param:c), store/types.TransientGasConfig())"},
+		{"(types.Context).KVStore", "store/gaskv.NewStore(store/types.MultiStore.GetKVStore(param:c.ms, param:key), param:c.gasMeter, store/types.KVGasConfig())"},
+		{"(types.Context).TransientStore", "store/gaskv.NewStore(store/types.MultiStore.GetKVStore(param:c.ms, param:key), param:c.gasMeter, store/types.TransientGasConfig())"},
 		{"(types.Subspace).kvStore", "store/prefix.NewStore(types.Ctx.KVStore(param:ctx, param:s.key), append(param:s.name, list(47)))"},
 		{"(types.Subspace).transientStore", "store/prefix.NewStore(types.Ctx.TransientStore(param:ctx, param:s.tkey), append(param:s.name, list(47)))"},
 	} {
@@ -506,7 +506,7 @@ func checkPrefixEndBytes(r *Run, rule string) {
 	r.Check(nilRet, rule, "PrefixEndBytes/empty=>nil", P.Pos(f.Pos()), "empty prefix yields nil (unbounded)", "PrefixEndBytes no longer returns nil for an empty prefix")
 	r.Check(sawInc, rule, "PrefixEndBytes/increments-last-non-FF", P.Pos(f.Pos()), "last byte incremented only when it is not 0xFF", "PrefixEndBytes no longer increments the last byte under the guard byte != 0xFF (0xFF would wrap to 0x00)")
 	r.Check(sawTrunc, rule, "PrefixEndBytes/drops-trailing-FF", P.Pos(f.Pos()), "trailing 0xFF bytes are dropped", "PrefixEndBytes no longer drops a trailing 0xFF byte before incrementing")
-	if g := r.fn("store/prefix.cpIncr"); g != nil {
+	if g := r.fnOpt("store/prefix.cpIncr"); g != nil {
 		for _, ret := range Returns(g) {
 			t := P.TermAt(ret.Results[0], ret).String()
 			r.Check(t == "store/types.PrefixEndBytes(param:bz)", rule, "cpIncr", P.InstrPos(ret), t, "cpIncr is "+t)
